@@ -195,10 +195,11 @@ end
 
 /-! ### predicates -/
 
-/-- `_all_refs_same_type` over `_get_reference_table`: the types of all nodes printing alike intersect -/
+/-- `_all_refs_same_type` over `_get_reference_table`: the type sets of all occurrences of one reference (same printed
+    form and, for a quantified variable, same binding quantifier) intersect -/
 def refsOk (e : Expr) : Bool :=
-  let refs := e.preorder.filter isRefNode
-  refs.all (fun r => (refs.filter (fun s => s.print == r.print)).foldl (fun acc s => acc &&& s.ty) T.ANY != 0)
+  let occs := e.refOccs []
+  occs.all (fun r => (occs.filter (sameRef r)).foldl (fun acc s => acc &&& s.2.ty) T.ANY != 0)
 
 /-- `HplPredicateExpression(e)` -/
 def mkPred (e : Expr) : M Pred := do
